@@ -191,7 +191,19 @@ impl<'s, 'b> Gen<'s, 'b> {
                         }
                         1 => {
                             self.tag("computed-pattern-key");
-                            let k = self.src.pick(&["\"a\", \"b\"", ".k?", "\"a\"", "0", "keys_unsorted[]?"]).to_string();
+                            // key filters run in the scope outside the pattern: let them use its names
+                            let k = if (!sc.vars.is_empty() || !sc.args.is_empty()) && self.src.chance(150) {
+                                self.tag("computed-pattern-key-uses-outer-name");
+                                let pool: Vec<String> = sc.vars.iter().chain(sc.args.iter()).cloned().collect();
+                                let n = self.src.pick(&pool).clone();
+                                match self.src.below(4) {
+                                    0 => format!("{n}, \"a\""),
+                                    1 => format!("{n} | tostring"),
+                                    _ => n,
+                                }
+                            } else {
+                                self.src.pick(&["\"a\", \"b\"", ".k?", "\"a\"", "0", "keys_unsorted[]?"]).to_string()
+                            };
                             let p = self.pattern(sc, depth - 1, bound);
                             es.push(format!("({k}): {p}"));
                         }
@@ -236,6 +248,7 @@ impl<'s, 'b> Gen<'s, 'b> {
             if cfg.stdlib { 6 } else { 0 },           // 16 library call
             2,                                        // 17 neg / opt
             3,                                        // 18 path()
+            if cfg.defs { 3 } else { 0 },             // 19 closure scenario
         ];
         match self.src.weighted(&w) {
             0 => self.atom(sc),
@@ -362,7 +375,7 @@ impl<'s, 'b> Gen<'s, 'b> {
                     format!("({})?", self.term(sc, d))
                 }
             }
-            _ => {
+            18 => {
                 self.tag("path-of");
                 if self.src.chance(200) {
                     format!("path({})", self.path(sc, d.min(2)))
@@ -370,6 +383,7 @@ impl<'s, 'b> Gen<'s, 'b> {
                     format!("path({})", self.term(sc, d))
                 }
             }
+            _ => self.closure_scenario(sc, d),
         }
     }
 
@@ -415,7 +429,14 @@ impl<'s, 'b> Gen<'s, 'b> {
             // (NaN, infinities and non-numbers take the base case), so that every generated
             // recursion terminates on every input
             let call = self.call_with_same_args(&sig, &params);
-            let step = self.term(&body_sc, d.min(1));
+            let fparams: Vec<String> = params.iter().filter(|p| !p.1).map(|p| p.0.clone()).collect();
+            let step = if !fparams.is_empty() && self.src.chance(140) {
+                let g = self.src.pick(&fparams).clone();
+                self.closure_step(&body_sc, &g)
+            } else {
+                let sd = if self.src.chance(80) { d.min(2) } else { d.min(1) };
+                self.term(&body_sc, sd)
+            };
             let guard = "(. == 0 or . == 1 or . == 2) | not";
             match self.src.below(3) {
                 0 => format!("if {guard} then {step} else ., (.+1 | {call}) end"),
@@ -435,6 +456,68 @@ impl<'s, 'b> Gen<'s, 'b> {
         format!("(def {name}{ps}: {body}; {rest})")
     }
 
+    /// run the filter parameter `g` under binders introduced inside a definition
+    fn closure_step(&mut self, body_sc: &Scope, g: &str) -> String {
+        self.tag("closure-run-under-inner-binder");
+        let t1 = self.term(body_sc, 0);
+        let t2 = self.term(body_sc, 0);
+        let l = self.src.pick(&LABELS).to_string();
+        let x = self.src.pick(&VARS).to_string();
+        match self.src.below(8) {
+            0 => format!("((label {l} | ({t1}, {g}, {t2})), {t2})"),
+            1 => format!("({t1} as {x} | {g})"),
+            2 => format!("(reduce ({t1}) as {x} (.; {g}))"),
+            3 => format!("(def h: {g}; (label {l} | h), {t2})"),
+            4 => format!("(try ({g}) catch {t1})"),
+            5 => format!("(label {l} | {t1} as {x} | first(({g}), {t2}))"),
+            6 => format!("({g})"),
+            _ => format!("[({g}), (label {l} | {g})]"),
+        }
+    }
+
+    /// A directed scenario: a (tail-)recursive definition with a filter parameter is called under a
+    /// label with a closure that captures names of the call site (and may break out of it); after the
+    /// recursion has taken some calls, the closure runs under binders introduced inside the definition.
+    fn closure_scenario(&mut self, sc: &Scope, d: usize) -> String {
+        self.tag("closure-scenario");
+        self.binders.insert("label");
+        self.binders.insert("def");
+        let l = self.src.pick(&LABELS).to_string();
+        let mut sc2 = sc.clone();
+        sc2.labels.push(l.clone());
+        let name = self.src.pick(&FUNS).to_string();
+        let g = self.src.pick(&PARAMS).to_string();
+        let with_var = self.src.chance(80);
+        let xv = self.src.pick(&VARS).to_string();
+        let mut body_sc = sc2.clone();
+        body_sc.funs.retain(|f| !(f.name == name && f.params.len() == 1 + with_var as usize));
+        body_sc.funs.retain(|f| !(f.name == g && f.params.is_empty()));
+        body_sc.args.push(g.clone());
+        if with_var {
+            body_sc.vars.push(xv.clone());
+        }
+        let (ps, call) = if with_var { (format!("{g}; {xv}"), format!("{name}({g}; {xv})")) } else { (g.clone(), format!("{name}({g})")) };
+        let step = self.closure_step(&body_sc, &g);
+        let guard = "(. == 0 or . == 1 or . == 2) | not";
+        let body = match self.src.below(4) {
+            0 => format!("if {guard} then {step} else (.+1 | {call}) end"),
+            1 => format!("if {guard} then {step} else ., (.+1 | {call}) end"),
+            2 => format!("if {guard} then {step} else (.+1 | {call}) | {} end", self.term(&body_sc, 0)),
+            _ => format!("if {guard} then {step} else ({}) as {xv} | (.+1 | {call}) end", self.term(&body_sc, 0)),
+        };
+        let arg = match self.src.below(5) {
+            0 => format!("break {l}"),
+            1 => format!("({}, break {l})", self.term(&sc2, d.min(1))),
+            2 if !sc2.vars.is_empty() => self.src.pick(&sc2.vars).clone(),
+            3 => format!("(if {} then break {l} else . end)", self.term(&sc2, 0)),
+            _ => self.term(&sc2, d.min(1)),
+        };
+        let ctr = self.src.pick(&["0", "1", "2", ".", "3"]).to_string();
+        let xarg = if with_var { format!("; {}", self.term(&sc2, 0)) } else { String::new() };
+        let tail = if self.src.bool() { format!(", {}", self.term(sc, 0)) } else { String::new() };
+        format!("((label {l} | def {name}({ps}): {body}; ({ctr} | {name}({arg}{xarg}))){tail})")
+    }
+
     fn call_with_same_args(&mut self, sig: &FunSig, params: &[(String, bool)]) -> String {
         if params.is_empty() {
             sig.name.clone()
@@ -448,7 +531,17 @@ impl<'s, 'b> Gen<'s, 'b> {
         let mut args = Vec::new();
         let mut multi_var = 0;
         for is_var in &f.params {
-            let a = self.term(sc, d);
+            let a = if !*is_var && !sc.labels.is_empty() && self.src.chance(90) {
+                // a closure that leaves through a label bound at the call site
+                let l = self.src.pick(&sc.labels).clone();
+                match self.src.below(3) {
+                    0 => format!("break {l}"),
+                    1 => format!("({}, break {l})", self.term(sc, d.min(1))),
+                    _ => format!("(if {} then break {l} else . end)", self.term(sc, 0)),
+                }
+            } else {
+                self.term(sc, d)
+            };
             if *is_var && a.contains(',') {
                 multi_var += 1;
             }
